@@ -42,6 +42,16 @@ def real_call(np_mod, cs, s):
     return ("ok", key, bool(neg))
 
 
+def stated_negation(s):
+    """The property's own words: negated exactly when the string carries `!` (leading, the manual's prefix), `not ` or ` not`
+    (any white space). None where the words leave room (a `!` elsewhere than in front)."""
+    import re
+    t = s.lower().strip()
+    if t.startswith("!") or re.search(r"not\s", t) or re.search(r"\snot", t):
+        return True
+    return None if "!" in t else False
+
+
 def model_out(r):
     if "exc" in r:
         return ("exc", r["exc"])
@@ -176,6 +186,13 @@ def run(ctx):
                 ctx.violations.append({
                     "what": f"normalize_predicate({s!r}) returns something that is not one of the 162 table entries",
                     "replay": {"kind": "not-a-table-entry", "input": s, "impl": real, "model": mo},
+                })
+            elif real[0] == "ok" and stated_negation(s) is not None and real[2] != stated_negation(s):
+                n_dis += 1  # (seeded change C16-j: `not ` right after a non-blank character no longer detected)
+                ctx.violations.append({
+                    "what": f"normalize_predicate({s!r}) is reported negated={real[2]} whereas it "
+                            f"{'carries' if stated_negation(s) else 'carries neither'} `!`, `not ` or ` not`",
+                    "replay": {"kind": "negation", "input": s, "impl": real, "model": mo, "stated": stated_negation(s)},
                 })
             elif real != mo:
                 n_dis += 1
